@@ -342,6 +342,7 @@ def build():
                   ("a show that starts paused does not schedule its second step",
                    "implies(not self.start_running and not old(self._stopped), ghost.n_live == 0)")],
          modifies=MODS, raises={}, emits=lambda I, env, res: None)
+    C.finite_checks.append(common.native_demo_check("c17_two_tokens_in_one_key.py", "a show whose step key contains two tokens (led_(row)_(col)) can be played"))
     C.finite_checks.append(common.native_demo_check(
         "c17_request_before_synced_start.py",
         "an advance / resume / pause request on a show that waits for its sync point does not cancel its start"))
